@@ -5,10 +5,10 @@ in (aliasing), under several optimizers; invariant monitor at every event."""
 import copy
 
 from qsim import plan as P
-from qsim.core import Run
+from qsim.core import Run, teq
 
 PROP = "C20"
-QUICK_RUNS = 2400
+QUICK_RUNS = 4800
 RULE = (
     "one case = one state constructed from sizes (hidden/auxiliary sizes explicit or defaulted) or from a user-supplied RBM, "
     "followed by a history of 2-7 operations out of {contract check incl. two-way aliasing perturbation, train with "
@@ -39,8 +39,10 @@ def generate(seed, tier):
     if typ == "density":
         cfg["na"] = r.randint(1, 3) if (route == "module" or r.random() < 0.5) else None
     cfg["module_randomised"] = r.random() < 0.7
+    cfg["module_zero_weights"] = route == "module" and r.random() < 0.25
     nops = r.randint(2, 7)
-    ops = [{"op": "contract"}]
+    # the first thing that happens after construction is not always an inspection
+    ops = [{"op": "contract"}] if r.random() < 0.6 else []
     for _ in range(nops):
         m = r.random()
         if m < 0.35:
@@ -75,12 +77,15 @@ def execute(plan):
     def named(rbm):
         return list(rbm.named_parameters())
 
+    def finite(st):
+        return all(bool(torch.isfinite(p.data).all()) for net in st.networks for p in getattr(st, net).parameters())
+
     def net_snapshot(rbm):
         return {n: p.data.detach().clone() for n, p in named(rbm)}
 
     def net_equal(rbm, snap):
         cur = net_snapshot(rbm)
-        return cur.keys() == snap.keys() and all(cur[k].shape == snap[k].shape and torch.equal(cur[k], snap[k]) for k in snap)
+        return cur.keys() == snap.keys() and all(teq(cur[k], snap[k]) for k in snap)
 
     with rng:
         rng.stream(plan["sub"])
@@ -90,10 +95,11 @@ def execute(plan):
         state = None
         try:
             if c["route"] == "module":
+                zw = bool(c.get("module_zero_weights"))
                 if c["type"] == "density":
-                    module = PurificationRBM(c["nv"], c["nh"], c["na"], gpu=False)
+                    module = PurificationRBM(c["nv"], c["nh"], c["na"], zero_weights=zw, gpu=False)
                 else:
-                    module = BinaryRBM(c["nv"], c["nh"], gpu=False)
+                    module = BinaryRBM(c["nv"], c["nh"], zero_weights=zw, gpu=False)
                 if c.get("module_randomised"):
                     g = np.random.Generator(np.random.PCG64(c["pseed"]))
                     for n, p in module.named_parameters():
@@ -161,8 +167,11 @@ def execute(plan):
             if tag == "construct" and c["route"] == "module":
                 if not net_equal(module, module_before):
                     run.violate("20-module", "constructing a state changed the user's RBM parameters", **detail)
-                if two and not net_equal(state.rbm_ph, module_before):
-                    run.violate("20-module", "phase network is not a copy of the user RBM (values differ at construction)", **detail)
+            if two and c["route"] == "module" and phase_is_copy["v"]:
+                # until the phase network is trained or reinitialised it must hold the values the user's RBM
+                # had when the state was constructed - whatever happened to the amplitude network since
+                if not net_equal(state.rbm_ph, module_before):
+                    run.violate("20-module", f"phase network is not a copy of the RBM given at construction ({tag})", **detail)
             if tag in ("construct", "reinit") and (c["route"] == "sizes" or tag == "reinit"):
                 for net in state.networks:
                     rbm = getattr(state, net)
@@ -177,10 +186,13 @@ def execute(plan):
                         if n.startswith("weights") and pa.shape == pp.shape and torch.equal(pa.data, pp.data):
                             run.violate("20-init", f"amplitude and phase {n} are identical after {tag}", **detail)
             if c["type"] == "density":
-                if aux_expect["v"] is not None and not torch.equal(state.rbm_ph.aux_bias.data, aux_expect["v"]):
+                if not finite(state):
+                    run.inconclusive["diverged_nonfinite_parameters"] += 1
+                elif aux_expect["v"] is not None and not torch.equal(state.rbm_ph.aux_bias.data, aux_expect["v"]):
                     run.violate("20-auxbias", f"phase network's auxiliary bias is not zero ({tag})", **detail)
 
         contract_tag = "construct"
+        phase_is_copy = {"v": c["route"] == "module"}
         for j, op in enumerate(plan["ops"]):
             kind = op["op"]
             run.log.add("op", kind, j)
@@ -191,6 +203,7 @@ def execute(plan):
                     contract_tag = "later"
             elif kind == "reinit":
                 did_history = True
+                phase_is_copy["v"] = False
                 before = params_snapshot(state)
                 rng.stream(op["sub"])
                 try:
@@ -215,7 +228,8 @@ def execute(plan):
                 if module is None or state.rbm_am is not module:
                     continue
                 g = np.random.Generator(np.random.PCG64(op["seed"]))
-                ph_before = net_snapshot(state.rbm_ph) if two else None
+                # (the phase network is deliberately not read before the write: a copy made lazily would be exposed)
+                ph_before = module_before if phase_is_copy["v"] else (net_snapshot(state.rbm_ph) if two else None)
                 for n, p in module.named_parameters():
                     p.data.add_(torch.from_numpy(g.standard_normal(tuple(p.shape)) * 0.1).to(p.data))
                 if two and not net_equal(state.rbm_ph, ph_before):
@@ -242,6 +256,7 @@ def execute(plan):
                 trace.append("N")
             elif kind == "train":
                 did_history = True
+                phase_is_copy["v"] = False
                 rng.stream(op["sub"], mode="honest")
                 dcfg = {"N": op["N"], "nv": c["nv"], "dseed": op["dseed"], "form": "tensor", "basis_mode": "mixed"}
                 din, _, bases = build_data(dcfg, with_bases=c["type"] != "positive")
@@ -253,7 +268,7 @@ def execute(plan):
 
                 def handler(kind_, args, idx, nn_state, seq):
                     if c["type"] == "density" and not bad["seen"] and aux_expect["v"] is not None:
-                        if not torch.equal(nn_state.rbm_ph.aux_bias.data, aux_expect["v"]):
+                        if finite(nn_state) and not torch.equal(nn_state.rbm_ph.aux_bias.data, aux_expect["v"]):
                             bad["seen"] = True
                             run.violate("20-auxbias", f"phase network's auxiliary bias became non-zero during training (first seen at {kind_}{tuple(args)}, optimizer {opt})", opt=opt, type=c["type"])
                     if c["route"] == "module" and nn_state.rbm_am is not module and not bad.get("mod"):
